@@ -1218,7 +1218,7 @@ export class TupleRuntype extends BaseRuntype {
     popPath(ctx);
     return annotateSchema(this.metadata, {
       type: "array",
-      ...(prefixItems.length > 0 ? { prefixItems } : {}),
+      ...(prefixItems.length > 0 ? { prefixItems, minItems: prefixItems.length } : {}),
       items,
     } as any);
   }
